@@ -113,11 +113,62 @@ def job(cfgs):
     return len(cfgs), oc, out, states
 
 
+# ------------------------------------------------------------------ callers that depend on the exact text
+
+def caller_part(rep):
+    """ET / DT against a device refusing a block with code c: only code 2 (ILLEGAL DATA ADDRESS) may switch a
+    capability off; any other code must surface as RequestRejectedException and leave the capability alone."""
+    from ..configs import make_rig
+    from ..devsim import ET_OPTIONAL, DT_OPTIONAL
+    n = 0
+    for code in (1, 2, 3, 4, 6, 10, 11, 0x55):
+        for block, flag in (('battery', '_has_battery'), ('battery2', '_has_battery2'), ('mppt', '_has_mppt'),
+                            ('meter_ext2', '_has_meter_extended2'), ('eco_v2', '_has_eco_mode_v2'),
+                            ('peak_shaving', '_has_peak_shaving')):
+            cfg = dict(family='ET', tag='ETU', power=25000, refused=(block,), battery_mode=2)
+            r = make_rig(cfg)
+            r.dev.refuse_code = code
+            di = r.call(r.inv.read_device_info)
+            before = getattr(r.inv, flag)
+            res = r.call(r.inv.read_runtime_data)
+            after = getattr(r.inv, flag)
+            n += 1
+            probe = block in ('eco_v2', 'peak_shaving')
+            if code == 2:
+                if after is not False:
+                    rep.add(f'code2-switches-capability-off/ET/{block}', 'ILLEGAL DATA ADDRESS switches the block off',
+                            dict(part='caller', block=block, code=code), dict(flag=flag, value=after, result=str(res)[:80]))
+            else:
+                if (after is False and before is not False) or (probe and before is False):
+                    rep.add(f'only-code2-switches-capability-off/ET/{block}', 'another exception code switched a capability off',
+                            dict(part='caller', block=block, code=code), dict(flag=flag, code=code))
+                if not probe and not (res[0] == 'exc' and res[1] == 'RequestRejectedException'):
+                    rep.add(f'other-codes-surface/ET/{block}', 'a rejection other than ILLEGAL DATA ADDRESS must reach the caller',
+                            dict(part='caller', block=block, code=code), dict(result=str(res)[:80], code=code))
+        # single sensor / setting reads
+        cfg = dict(family='ET', tag='ETU', power=10000, refused=(), battery_mode=2)
+        r = make_rig(cfg)
+        r.call(r.inv.read_device_info)
+        r.dev.refused = [(45356, 45356)]
+        r.dev.refuse_code = code
+        res = r.call(r.inv.read_setting, 'battery_discharge_depth')
+        n += 1
+        still = 'battery_discharge_depth' in r.inv._settings
+        if code == 2 and not (res[0] == 'exc' and res[1] == 'ValueError' and not still):
+            rep.add('code2-marks-setting-unsupported/ET', 'ILLEGAL DATA ADDRESS -> ValueError, setting dropped',
+                    dict(part='caller', block='setting', code=code), dict(result=str(res)[:80], still_listed=still))
+        if code != 2 and (not still or (res[0] == 'exc' and res[1] == 'ValueError')):
+            rep.add('only-code2-marks-setting-unsupported/ET', 'another exception code dropped the setting',
+                    dict(part='caller', block='setting', code=code), dict(result=str(res)[:80], still_listed=still))
+    return n
+
+
 def run(tier, seed, rep):
+    n_c = caller_part(rep)
     n_e, reasons, vio_e = validator_part()
     rep.add_many(vio_e)
     grid = [(1, 0), (1, 1), (1, 2), (1, 3), (2, 1), (0.5, 2)] if tier == 'thorough' else [(1, 0), (1, 2)]
-    codes = list(range(256)) if tier == 'thorough' else list(range(0, 13)) + [0x55, 0x80, 0x83, 0xFF]
+    codes = list(range(256)) if tier == 'thorough' else list(range(0, 16)) + list(range(16, 256, 7)) + [0x55, 0x80, 0x83, 0xFF]
     cfgs = []
     for tr in ('udp', 'tcp'):
         for ka in (False, True):
@@ -139,7 +190,7 @@ def run(tier, seed, rep):
             ocs[kk] = ocs.get(kk, 0) + v
         rep.add_many(out)
     cov = dict(states=len(states), transitions=total, executions=total, traces_validated_against_impl=total,
-               validator_evaluations=n_e, distinct_validator_outcomes=reasons,
+               validator_evaluations=n_e, caller_cases=n_c, distinct_validator_outcomes=reasons,
                distinct_outcome_classes=len(ocs), exhaustive=True,
                bound=f'codes {"0..255" if tier == "thorough" else "0..12,0x55,0x80,0x83,0xFF"} x read/write/write-multi x '
                      f'UDP-RTU/TCP x keep-alive x (T,R) grid {grid} x exception answering transmission k+1 for every '
@@ -152,6 +203,11 @@ def run(tier, seed, rep):
 
 
 def replay(r):
+    if r['part'] == 'caller':
+        from ..findings import Report
+        rp = Report('C08')
+        caller_part(rp)
+        return dict(violations=sorted(k for k in rp.by_key if r['block'] in k or r['block'] == 'setting'))
     if r['part'] == 'E':
         p = make_protocol('tcp' if r['framing'] == 'tcp' else 'udp', 1, 0, False)
         cmd = command(p, r['kind'])
